@@ -96,7 +96,7 @@ fn synth_frame(sim: &Sim, addrs: &[u16; 2], near: u32, announced: u32) -> RF {
     let mut data = [0u8; 8];
     let bytes = fill_pattern(3, sim.draw(4096), dl as usize);
     data[..dl as usize].copy_from_slice(&bytes);
-    let id = match sim.draw(8) {
+    let id = match sim.draw(10) {
         0 => near,
         1 => near + 1,
         2 => near.saturating_sub(1),
@@ -104,9 +104,13 @@ fn synth_frame(sim: &Sim, addrs: &[u16; 2], near: u32, announced: u32) -> RF {
         4 => announced.saturating_sub(1),
         5 => announced + 1,
         6 => 0,
+        // ids no frame decoder produces but the frame type can hold: the expected id plus a
+        // multiple of 4096 or 256 (an alias if ids are compared in 12 or 8 bits), any 16-bit value
+        7 => near + 0x1000 * (1 + sim.draw(15)),
+        8 => sim.pick(&[near + 0x100, near + 0x8000, 0xffff, 0x1000, near | 0xf000]),
         _ => sim.draw(4096),
     }
-    .min(4095) as u16;
+    .min(0xffff) as u16;
     RF {
         not_error: sim.chance(80),
         start: sim.chance(25),
@@ -291,16 +295,26 @@ pub fn run(sim: &Sim, prop: &str, tier: Tier) -> Outcome {
                 4 => {
                     let mut g = *f;
                     let ann = model.announced;
-                    g.id = (match sim.draw(7) {
+                    g.id = (match sim.draw(9) {
                         0 => g.id as u32 + 1,
                         1 => (g.id as u32).saturating_sub(1),
                         2 => g.id as u32 + 2 + sim.draw(5),
                         3 => ann,
                         4 => ann + 1,
                         5 => ann.saturating_sub(1),
+                        // the right id plus a multiple of 4096 / 256, or any 16-bit value (not
+                        // producible by a frame decoder, but a `Frame` can hold it)
+                        6 => {
+                            sim.count("chan_id_beyond_12_bits");
+                            g.id as u32 + 0x1000 * (1 + sim.draw(15))
+                        }
+                        7 => {
+                            sim.count("chan_id_beyond_12_bits");
+                            sim.pick(&[g.id as u32 + 0x100, g.id as u32 + 0x8000, 0xffff, g.id as u32 | 0xf000, sim.draw(65536)])
+                        }
                         _ => sim.draw(4096),
                     })
-                    .min(4095) as u16;
+                    .min(0xffff) as u16;
                     feed.push((g, "id-rewritten"));
                     sim.count("chan_id_rewritten");
                 }
